@@ -128,6 +128,71 @@ def _first_byte_task(task):
     return acc
 
 
+def _entropy_tree_task(task):
+    """the message as a function of the ENTROPY (E2 choice tree, two draws deep): under uniform entropy answers the message
+    must be uniform on the subgroup.  Exact rational weights: a leaf reached through answers a1..ak has probability
+    prod 1/|menu_i|; uniformity is demanded of the distribution conditional on finishing within two draws."""
+    from fractions import Fraction
+    from .. import explore
+    name, side = task
+    acc = Acc()
+    inst, why = T.try_get(name)
+    if inst is None or inst.kind != "int":
+        return acc
+    R, q = inst.ref, inst.q
+    pw = b"pw"
+
+    def menu(k, depth):
+        if k == 1:
+            return None
+        if k == 2:
+            # the top byte is masked down to the bits of q: two representatives per masked value class suffice
+            top = (1 << max(0, q.bit_length() - 8)) - 1
+            return [bytes([t, lo]) for t in range(top + 1) for lo in range(256)]
+        return None
+    menu.all_widths = True
+
+    def fn(f):
+        s = inst.new(side, pw, None, entropy=f)
+        m = T.observe(s.start)
+        return m[1][1:] if m[0] == "ok" else m
+
+    prob = {}
+    sizes_seen = set()
+    nleaf = 0
+    # level sizes are needed for the weights: record the menu size at each depth along each path
+    def msize(k, depth):
+        a = menu(k, depth)
+        return len(a) if a is not None else 256 ** k
+    for answers, res, sizes in explore.choice_tree(fn, 2, menu):
+        acc.n(states=1, transitions=1)
+        nleaf += 1
+        if res is explore.PENDING:
+            continue
+        w = Fraction(1)
+        for d, k in enumerate(sizes[:len(answers)]):
+            w /= msize(k, d)
+        sizes_seen.add(tuple(sizes))
+        if isinstance(res, tuple):
+            acc.violation("C04/%s/start-raises" % fam(inst), {"what": "start() raises for an entropy answer", "replay": {"inst": inst.desc, "side": side, "pw": pw, "ids": [], "entropy": [a for a in answers]},
+                          "expected": "message", "observed": res})
+            continue
+        prob[res] = prob.get(res, Fraction(0)) + w
+    sub = {R.enc(e) for e in R.elements()}
+    vals = set(prob.values())
+    if set(prob) != sub or len(vals) != 1:
+        lo, hi = (min(prob.values()), max(prob.values())) if prob else (0, 0)
+        acc.violation("C04/%s/%s/message-not-uniform-under-uniform-entropy" % (fam(inst), side),
+                      {"what": "over the complete two-draw entropy tree the message is not uniformly distributed on the subgroup (a re-draw does not use fresh, independent bytes, or values are missing)",
+                       "replay": {"inst": inst.desc, "side": side, "pw": pw, "ids": [], "entropy": "two-draw-tree"},
+                       "expected": "%d elements, equal probability" % len(sub), "observed": {"elements": len(prob), "min": str(lo), "max": str(hi)}})
+    else:
+        acc.seen((name, side, "entropy-tree", str(next(iter(vals)))))
+    acc.n(traces=1)
+    acc.inst(name, entropy_tree_leaves=nleaf)
+    return acc
+
+
 def _shipped_task(task):
     name, seed = task
     acc = Acc()
@@ -198,6 +263,7 @@ def run(tier, seed):
     tasks.sort(key=lambda t: -T.get(t[0]).q * len(t[2]) * (10 if T.get(t[0]).kind == "ed" else 1))
     core.pmerge(_table_task, tasks, acc)
     core.pmerge(_first_byte_task, [(n, s) for n in ["T11", "T23", "T29", "T31", "T43", "T59", "T509", "T263"] for s in "ABS"], acc)
+    core.pmerge(_entropy_tree_task, [(n, s) for n in ["T1543", "T263", "T23", "T29"] for s in ("A", "S")], acc)
     core.pmerge(_shipped_task, [(n, seed) for n in T.SHIPPED], acc)
     return acc
 
